@@ -21,10 +21,13 @@ ASSUMPTIONS = [
     "float/double parameters (eps_strong, relax, over_interp, eps_trunc) are fed as exactly representable values; "
     "the float expressions the code evaluates on them (eps_strong*eps_strong, 1/over_interp, eps_strong*=0.5, "
     "static_cast<scalar>(2.0/3)) are recomputed by the generator and checked by the C++ driver (GLUE-MISMATCH otherwise)",
-    "near-null-space variant of tentative_prolongation (QR<double>): tested through oracles in the double build, not proved "
-    "against the code; the Coq theorem about it is relative to a QR oracle with Q R = B_aggr, Q^T Q = I",
-    "one OpenMP thread for the exact comparison of storage order (product() switches to spgemm_rmerge above 16 threads; "
-    "Gershgorin estimate carries a per-thread diagonal)",
+    "near-null-space variant of tentative_prolongation: the code runs QR<double> whatever the value type, so the tie uses the "
+    "double build: byte-identical outputs (model TentativeQr.v at the exact rationals vs code) on the 'dyadic exact' family on "
+    "which no binary64 operation rounds (every reflector has tau = 1 or 0); on the perfect-square family (rational orthogonal "
+    "Q0, dyadic diag R0: model roots exact) and on random B agreement within 1e-9 entry by entry, column signs free only where "
+    "the model met an exact zero test (tau in {0,1}); oracles P B_c = B, P^T P = I, B_c blocks upper triangular on all of them",
+    "the exact comparison of storage order is run with 1, 2, 3 and 5 OpenMP threads (identical outputs required); product() "
+    "switches to spgemm_rmerge above 16 threads (C08/C09)",
     "spectral_radius (Gershgorin) and product models are those of coq/MatOps2.v (matops group); pointwise_matrix is modelled in Aggregates.v (pwm) and cross-checked against MatOps2.pointwise_matrix (oracle o.pwm_agree)",
 ]
 TRUSTED_BASE = [
@@ -120,6 +123,106 @@ def ns_ops(b, r, quick):
     b.add("d.tentative_ns", " ".join([str(n), str(nba * bs), fmt_ivec(ids), str(bs), str(cols), fmt_vec(B)]))
 
 
+def _dy(r, lo=-8, hi=8, dens=(1, 2, 4)): return F(r.randint(lo, hi), r.choice(dens))
+
+def exact_block(r, d, cols):
+    """d x cols block on which the Householder QR of qr.hpp runs WITHOUT ROUNDING in binary64 (and with exact
+    pseudo-roots in the model): B = H_0 ... H_{k-1} R0 with H_i = I - v v', v = e_i + v', |v'| = 1, v' dyadic and
+    supported on rows > i (then alpha = 0, beta = R0_ii = -2^e, tau = 1, 1/(alpha - beta) a power of two), or
+    H_i = I (x = 0, tau = 0, R0_ii any dyadic incl. 0); R0 upper triangular with small dyadic entries.
+    These are the only reflectors with dyadic tau, 1/(alpha-beta) and v (1 <= tau <= 2, tau = 2/(1+|v'|^2))."""
+    k = min(d, cols)
+    R = [[F(0)] * cols for _ in range(d)]
+    Hs = []
+    for i in range(k):
+        below = list(range(i + 1, d))
+        kinds = ["id"]
+        if len(below) >= 1: kinds += ["unit", "unit", "unit"]
+        if len(below) >= 4: kinds += ["had", "had", "had"]
+        kind = r.choice(kinds)
+        if kind == "id":
+            Hs.append(None)
+            R[i][i] = r.choice([F(0), _dy(r), _dy(r), _dy(r)])
+        else:
+            v = [F(0)] * d
+            if kind == "unit": v[r.choice(below)] = F(r.choice([1, -1]))
+            else:
+                for p_ in r.sample(below, 4): v[p_] = F(r.choice([1, -1]), 2)
+            v[i] = F(1)
+            Hs.append(v)
+            R[i][i] = -(F(2) ** r.randint(-2, 3))
+        for j in range(i + 1, cols): R[i][j] = _dy(r)
+    B = R
+    for v in reversed(Hs):
+        if v is None: continue
+        w = [sum(v[l] * B[l][j] for l in range(d)) for j in range(cols)]
+        B = [[B[l][j] - v[l] * w[j] for j in range(cols)] for l in range(d)]
+    return B
+
+def _rat_orth(r, m):
+    """rational orthogonal m x m matrix (rational Householder reflections and a signed permutation)"""
+    q = [[F(1) if i == j else F(0) for j in range(m)] for i in range(m)]
+    for _ in range(r.choice([1, 1, 2])):
+        u = [F(r.randint(-2, 2)) for _ in range(m)]
+        uu = sum(x * x for x in u)
+        if uu == 0: continue
+        q = [[q[i][j] - sum(q[i][l] * u[l] for l in range(m)) * 2 * u[j] / uu for j in range(m)] for i in range(m)]
+    perm = list(range(m)); r.shuffle(perm)
+    sg = [r.choice([1, -1]) for _ in range(m)]
+    return [[q[i][perm[j]] * sg[j] for j in range(m)] for i in range(m)]
+
+def square_block(r, d, cols):
+    """B = Q0 R0, Q0 rational orthogonal, R0 upper trapezoidal with non-zero dyadic diagonal: every norm the QR meets is
+    |R0_ii| (uniqueness of QR), so the pseudo-root of the model is exact; binary64 rounds (family of C16)"""
+    R = [[F(0)] * cols for _ in range(d)]
+    for i in range(min(d, cols)):
+        R[i][i] = F(r.choice([1, 2, 3, 5, -1, -2, -3, 7]), r.choice([1, 1, 2, 4]))
+        for j in range(i + 1, cols): R[i][j] = F(r.randint(-4, 4), r.choice([1, 1, 2, 3]))
+    q0 = _rat_orth(r, d)
+    return [[sum(q0[i][l] * R[l][j] for l in range(d)) for j in range(cols)] for i in range(d)]
+
+def _rank(M):
+    M = [row[:] for row in M]; rk = 0
+    for c in range(len(M[0]) if M else 0):
+        piv = next((i for i in range(rk, len(M)) if M[i][c] != 0), None)
+        if piv is None: continue
+        M[rk], M[piv] = M[piv], M[rk]
+        for i in range(rk + 1, len(M)):
+            f = M[i][c] / M[rk][c]
+            M[i] = [x - f * y for x, y in zip(M[i], M[rk])]
+        rk += 1
+    return rk
+
+def random_block(r, d, cols):
+    """random dyadic block of full column rank, constant vector first (a rank-deficient block has no unique QR up to
+    signs: binary64 and exact arithmetic legitimately complete the basis differently; those are left to the oracles)"""
+    for _ in range(50):
+        B = [[F(1) if j == 0 else _dy(r) for j in range(cols)] for i in range(d)]
+        if _rank(B) == min(d, cols): return B
+    return [[F(1) if i == j else F(0) for j in range(cols)] for i in range(d)]
+
+def ns_case(r, block_fn, big=False):
+    """one d.tentative_ns line: random block aggregates with at least [cols] rows each, removed rows in between"""
+    bs = r.choice([1, 1, 2]); cols = r.choice([1, 2, 3])
+    nba = r.randint(1, 4)
+    lo = max(1, -(-cols // bs)); hi = (6 if bs == 1 else 3) + (2 if big else 0)
+    pid = []
+    for a in range(nba): pid += [a] * r.randint(lo, max(lo, hi))
+    pid += [-2] * r.randint(0, 2)
+    r.shuffle(pid)
+    ids = []
+    for p_ in pid:
+        for k in range(bs): ids.append(bs * p_ + k if p_ >= 0 else -2)
+    n = len(ids)
+    B = [[_dy(r) for _ in range(cols)] for _ in range(n)]
+    for a in range(nba):
+        mem = [k for k in range(n) if ids[k] >= 0 and ids[k] // bs == a]
+        blk = block_fn(r, len(mem), cols)
+        for jj, k in enumerate(mem): B[k] = blk[jj]
+    flat = [x for row in B for x in row]
+    return " ".join([str(n), str(nba * bs), fmt_ivec(ids), str(bs), str(cols), fmt_vec(flat)])
+
+
 def diag_mode(mode, r):
     if mode == "two": return lambda i, row: F(2)
     if mode == "zrs": return lambda i, row: (-sum(row.values()) if sum(row.values()) != 0 else F(1))
@@ -210,6 +313,14 @@ def cases(tier, seed):
     # --- near-null space (double build, oracles only)
     for it in range(30 if quick else 300):
         ns_ops(b, r, quick)
+    # --- near-null space, tie with the modelled QR (TentativeQr.v): e. = dyadic exact family (byte-identical),
+    #     g. = perfect-square and random families (1e-9, signs free at exact zero tests only)
+    for it in range(120 if quick else 1200):
+        b.add("d.tentative_ns", ns_case(r, exact_block, big=(it % 3 == 0)))
+        b.lines[-1] = "e" + b.lines[-1]
+    for it in range(60 if quick else 600):
+        b.add("d.tentative_ns", ns_case(r, square_block if it % 3 else random_block))
+        b.lines[-1] = "g" + b.lines[-1]
     return b.lines
 
 
@@ -334,6 +445,35 @@ def derive_pairs(lines, impl):
     return orc, origin
 
 
+def _ns_cols(payload):
+    """cols token of a d.tentative_ns payload: n naggr (n ids...) bs cols (B...)"""
+    t = payload.split(); nid = int(t[2]); return int(t[3 + nid + 1])
+
+def ns_close(io, mo, hz, cols, tol):
+    """implementation (binary64) vs model (exact) output of d.tentative_ns: same shape and pattern, every entry of P and of
+    B_coarse within tol; the sign of a column of P (with the matching row of its B_coarse block) is free only in aggregates
+    where the model met an exact zero test (hz flag).  Returns None or a reason."""
+    from vcheck import parse_out_vec
+    try:
+        pi, bi = split_top(io); pm, bm = split_top(mo)
+        ni, mi, ri = parse_out_crs(pi); nm, mm, rm = parse_out_crs(pm)
+        vi = parse_out_vec(bi); vm = parse_out_vec(bm)
+        haz = [int(x) for x in hz.strip()[1:-1].split()]
+    except Exception as e:
+        return "unparsable output (%s)" % type(e).__name__
+    if (ni, mi) != (nm, mm): return "shape"
+    if [[c for c, _ in r] for r in ri] != [[c for c, _ in r] for r in rm]: return "pattern of P"
+    if len(vi) != len(vm) or len(vi) != mi * cols: return "length of B_coarse"
+    for col in range(mi):
+        a = col // cols
+        ei = [v for r in ri for c, v in r if c == col] + vi[col * cols:(col + 1) * cols]
+        em = [v for r in rm for c, v in r if c == col] + vm[col * cols:(col + 1) * cols]
+        if all(abs(x - y) <= tol for x, y in zip(ei, em)): continue
+        if a < len(haz) and haz[a] and all(abs(x + y) <= tol for x, y in zip(ei, em)): continue
+        return "column %d of P / row %d of B_coarse" % (col, col)
+    return None
+
+
 ONE = {"OMP_NUM_THREADS": "1"}
 
 def run(ctx, cases_override=None):
@@ -341,6 +481,8 @@ def run(ctx, cases_override=None):
     fails = []
     exact = [l for l in lines if not l.split(" ", 2)[1].startswith(("d.", "o."))]
     dbl = [l for l in lines if l.split(" ", 2)[1].startswith("d.")]
+    ns_e = [l for l in dbl if l.startswith("e")]          # dyadic exact family: byte-identical
+    ns_g = [l for l in dbl if l.startswith("g")]          # perfect-square / random: tolerance
     # ---- stage 1
     f, impl, model = diff_run(ctx, "coarsen", exact, env=ONE)
     for x in f:
@@ -407,10 +549,62 @@ def run(ctx, cases_override=None):
     fails += fj
     dep = sum(1 for l in jl if implj.get(l.split(" ", 1)[0]) != impl.get(l.split(" ", 1)[0][1:]))
     ctx["log"].append(("RS results that depend on the heap fill (0x00 vs 0xFF), out of %d" % len(jl), dep))
+    # ---- near-null space, exact tie with TentativeQr.v (model of tentative_prolongation.hpp + qr.hpp)
+    impl_ns = {}
+    if ns_e:
+        fe, ie, me = diff_run(ctx, "coarsen", ns_e, env=ONE)
+        for x in fe:
+            x["theorem"] = ("correspondence drv_coarsen (tentative_prolongation with near-null space, QR<double>, dyadic exact family) "
+                            "vs TentativeQr.v/Qr.v: outputs must be byte-identical")
+        fails += fe; impl_ns.update(ie)
+        orc = []; origin = {}
+        for l in ns_e:
+            cid, op, payload = l.split(" ", 2)
+            it = split_top(ie.get(cid) or "")
+            if len(it) != 2 or not it[0].startswith("{"): continue
+            orc.append("%s.x o.ns_exact %s %s %s" % (cid, payload, crs_tokens(it[0]), ivec_tokens(it[1][1:-1].split())))
+            origin[cid + ".x"] = l
+        fo = oracle_run(ctx, orc, "C04_tentative_qr_reproduces / C04_tentative_qr_orthonormal / C04_tentative_qr_coarse_upper evaluated "
+                        "exactly on the implementation's (P, B_coarse) (dyadic exact family)", lambda c: origin.get(c))
+        fails += fo
+    if ns_g:
+        ig = ctx["run_driver"](ctx["cpp"]["coarsen"], ns_g, env_extra=ONE)
+        mg = ctx["run_driver"](ctx["model"], ns_g)
+        hz = ctx["run_driver"](ctx["model"], [l.replace(" d.tentative_ns ", " ns_hazard ", 1) for l in ns_g])
+        account(ctx, ns_g, ig)
+        impl_ns.update(ig)
+        for l in ns_g:
+            cid, op, payload = l.split(" ", 2)
+            why = ns_close(ig.get(cid), mg.get(cid), hz.get(cid), _ns_cols(payload), F(1, 10 ** 9))
+            if why:
+                ctx["stats"]["mismatches"] += 1
+                fails.append(dict(kind="counterexample", case=l, impl=ig.get(cid), model=mg.get(cid), op=op, size=len(l), env=ONE,
+                                  theorem="correspondence drv_coarsen (tentative_prolongation with near-null space, QR<double>) vs "
+                                          "TentativeQr.v/Qr.v within 1e-9 (%s)" % why))
+    # ---- thread counts: the same cases with 2, 3 and 5 OpenMP threads must give the outputs of the 1-thread run
+    #      (aggregation is serial, the other loops are row-parallel, omega is accumulated under omp critical;
+    #      C04_tentative_qr_schedule_independent for the per-thread QR objects)
+    tl = [l for l in exact if not (impl.get(l.split(" ", 1)[0]) or "").startswith("CRASH")] + ns_e
+    ref = dict(impl); ref.update(impl_ns)
+    for nt in (2, 3, 5):
+        envt = {"OMP_NUM_THREADS": str(nt), "OMP_WAIT_POLICY": "PASSIVE"}     # passive: no spinning on a shared machine
+        it_ = ctx["run_driver"](ctx["cpp"]["coarsen"], tl, env_extra=envt)
+        bad = 0
+        for l in tl:
+            cid, op = l.split(" ", 2)[:2]
+            ctx["stats"]["evaluations"] += 1
+            if it_.get(cid) != ref.get(cid):
+                bad += 1; ctx["stats"]["mismatches"] += 1
+                fails.append(dict(kind="counterexample", case=l, impl=it_.get(cid), model=ref.get(cid), op=op, size=len(l), env=envt,
+                                  theorem="C04/C09 thread-count independence: drv_coarsen (%s) with OMP_NUM_THREADS=%d vs 1 thread "
+                                          "(field 'model' = the 1-thread implementation output)" % (op, nt)))
+        ctx["log"].append(("C04 ops with %d threads differing from 1 thread, out of %d" % (nt, len(tl)), bad))
     # ---- near-null space: double build + oracle
+    dbl_o = [l for l in dbl if not l.startswith(("e", "g"))]
     if dbl:
-        impld = ctx["run_driver"](ctx["cpp"]["coarsen"], dbl, env_extra=ONE)
-        account(ctx, dbl, impld)
+        impld = ctx["run_driver"](ctx["cpp"]["coarsen"], dbl_o, env_extra=ONE)
+        account(ctx, dbl_o, impld)
+        impld.update(impl_ns)
         orc = []; origin = {}
         for l in dbl:
             cid, op, payload = l.split(" ", 2)
